@@ -24,74 +24,86 @@ CHECKS = {
         technique=TECH + 'path-sensitive abstract-effect analysis of _embed (bucket contents per path) against oracle table B8; argument-flow rules for the flags',
         text='Decides the structural clauses C02.R1-R6 (bucket contents/kinds per path, mandatory default clearing, duplicate-name '
              'rejection before keyword-only merging, star-flag coherence and name-preserving forwarding, fold coverage with 1-based '
-             'depth, outer-before-inner order): necessary conditions, not exactness over calls.',
+             'depth, outer-before-inner order; defaults of inner parameters are never cleared and outer ones only when required): necessary '
+             'conditions, not exactness over calls.',
         note='exactness over calls, embed(a,b,c) == embed(embed(a,b),c) as a value law, identity on bare (*args, **kwargs).',
         design='DESIGN.md section 3 (C02), appendix B8'),
     'C03': dict(
         technique=TECH + 'path-sensitive abstract-effect analysis of _mask: per-name decision table, induction-variable rule, derived-collection (def-use) rule, hide-flag coherence',
         text='Decides the structural clauses C03.R1-R5 (per-name table, name-index coherence = order independence, positional '
              'consumption order/trip count/exhaustion, kinds of converted parameters, hide flags only remove and are bound '
-             'name-preservingly): necessary conditions, not the iff over calls.',
+             'name-preservingly; statement-level def-use rule for positional indexes; clamped cut of slice-based consumption): '
+             'necessary conditions, not the iff over calls.',
         note='exactness over calls, mask(mask(s,n),m) == mask(s,n+m) as a value law.',
         design='DESIGN.md section 3 (C03), appendix B9'),
     'C08': dict(
         technique=TECH + 'effect pairing (Put<->SrcAdd, Clear<->SrcDel) on enumerated paths, origin tags for provenance maps, helper contracts',
         text='Decides the structural clauses C08.R1-R7 (registration of every stored parameter from every side it stands for, removal '
              'pairing in _mask, union hygiene in _embed, +depths always assigned, depth arithmetic, duplicate-free concatenation, '
-             'wrapper swap). C08.R6 is a recorded known finding (D12), pinned by the test suite.',
+             'wrapper swap; depth maps combined by the minimum, not by overwriting; the classification hands out a private map). '
+             'C08.R6 is a recorded known finding (D12), pinned by the test suite.',
         note='that each listed callable declares the parameter as a runtime fact; depth strictness along discovered chains.',
         design='DESIGN.md section 3 (C08)'),
     'C09': dict(
         technique=TECH + 'extracted decision table of _Merger compared with the exact column of the oracle tables; protocol-position agreement (sort_params/apply_params)',
         text='Decides the structural clauses C09.R1-R4 (exactness column incl. raise discipline, classification round trip and '
              'six-position protocol agreement, left operand wins, bucket/kind closure of the fold): necessary conditions of the '
-             'precision/identity/fold laws, not the laws as equalities of values.',
+             'precision/identity/fold laws, not the laws as equalities of values. A result rebuilt with the class constructor must '
+             'hand over the (upgraded) return annotation.',
         note='the iff over calls, idempotence/neutral-element laws as value equalities, provenance equality in the fold law beyond closure.',
         design='DESIGN.md section 3 (C09), appendix B1-B7'),
     'C10': dict(
         technique=TECH + 'decision-table conformance of _concile_meta, dominance of default clearing, kind-restriction scan over all replace(kind=) terms',
         text='Decides the structural clauses C10.R1-R5 (default/annotation table, defaults cleared exactly when required, kind '
-             'changes are restrictions, outer-before-inner order, partial defaults are the bound value of the own name).',
+             'changes are restrictions, outer-before-inner order, partial defaults are the bound value of the own name; every '
+             'two-sided parameter is conciled; identity comparison of defaults is not equality; name-index coherence).',
         note='displayed default/annotation values.',
         design='DESIGN.md section 3 (C10), appendix B7/B8'),
     'C04': dict(
         technique=TECH + 'argument-flow rules on enumerated paths (forwards = embed o mask, per-kind evaluation of the partial rewrite, declaration parameters used), class-protocol rules for the emulating wrapper',
         text='Decides the structural clauses C04.R1-R5 (forwards is embed of mask with name-preserving flags, partial rewrite makes '
              'every non-star parameter optional, every declaration parameter is used and reaches forwards(), forger protocol and '
-             'forger-first chain order, wrapper hygiene).',
+             'forger-first chain order, wrapper hygiene incl. non-skippable deletions and release of the as_forged guard) and, as '
+             'C04.R6/R7, the soundness clauses of the two operations forwards() is composed of (C02.R1-R4, C03.R1-R5).',
         note='that executing an accepted call raises no TypeError (needs running wrappers); emulate dispatch values.',
         design='DESIGN.md section 3 (C04)'),
     'C05': dict(
         technique=TECH + 'meta-analysis of the AST visitor: handler exhaustiveness against the running interpreter\'s grammar (ASDL metadata), guard-table conformance on enumerated paths',
-        text='Decides the structural clauses C05.R1-R8 (binder / parameter-field / scope exhaustiveness, evaluation order of '
+        text='Decides the structural clauses C05.R1-R9 (binder / parameter-field / scope exhaustiveness, evaluation order of '
              'comprehensions and loop back-edges, visit_Name/taint/deferred-call tables, star extraction, callee resolution order, '
-             'untranslatable calls abort discovery): necessary conditions of discovery soundness over all programs.',
+             'untranslatable calls abort discovery, translation of the call record incl. per-call callee retrieval and caller-bound '
+             'known arguments, effects of nested scopes reach the enclosing bindings and the calls already recorded): necessary '
+             'conditions of discovery soundness over all programs.',
         note='anything about executed programs; that the resolved object is the one called at run time.',
         design='DESIGN.md section 3 (C05), appendix B10-B12, B16'),
     'C06': dict(
         technique=TECH + 'positional-protocol agreement (Call record, hint triple) and argument-flow rules on enumerated paths; exception-escape analysis for the fallback',
-        text='Decides the structural clauses C06.R1-R6 (Call protocol, translation into forwards(), skip and fallback, hint '
-             'protocol, method/partial routes, extraction of every forwarding call).',
+        text='Decides the structural clauses C06.R1-R7 (Call protocol, translation into forwards(), skip and fallback, hint '
+             'protocol, method/partial routes, extraction of every forwarding call, read-only resolution of attribute bases, '
+             'optional references to container-like scopes tested by identity).',
         note='equality of discovered and declared signatures over a program grammar; invariance under source transformations.',
         design='DESIGN.md section 3 (C06)'),
     'C07': dict(
         technique=TECH + 'interprocedural exception-escape analysis over the resolved call graph (with conditional re-raise specialisation), path enumeration of the fallback chain, call-cycle detection',
-        text='Decides the structural clauses C07.R1-R6 (fallback discipline and containment of internal signals, stage order and '
+        text='Decides the structural clauses C07.R1-R8 (fallback discipline and containment of internal signals, stage order and '
              'forger-first, source handling in get_ast, recursion guard on the user-driven cycle, probe discipline, Sphinx hook, '
-             'result type). C07.R3 is a recorded known finding (D17).',
+             'result type, nested retrieval of callees absorbs ValueError and TypeError, the Sphinx fallback returns autodoc\'s own '
+             'pair, scope-chain lookups, retrieval inside the delete/restore window is converted and __repr__ survives the window). '
+             'C07.R3 is a recorded known finding (D17).',
         note='"only narrows the def parameter list", totality over the standard-library corpus, implicit TypeError/KeyError of dynamically typed values.',
         design='DESIGN.md section 3 (C07)'),
     'C11': dict(
         technique=TECH + 'class-protocol (slot completeness), argument-flow and decision-table rules on enumerated paths',
         text='Decides the structural clauses C11.R1-R4 (slot completeness of replace/__init__, pairing of raw and upgraded '
-             'annotation, evaluation context of postponed annotations and the upgrade table, annotate wraps with preevaluated).',
+             'annotation, evaluation context of postponed annotations and the upgrade table, annotate wraps with preevaluated and '
+             'nothing read from an existing parameter is re-wrapped as pre-evaluated).',
         note='the eager-vs-postponed metamorphic equality (needs evaluation).',
         design='DESIGN.md section 3 (C11)'),
     'C12': dict(
         technique=TECH + 'decision-table conformance of _PokTranslator._prepare / __call__ and of the start/end/auto forms on enumerated paths',
-        text='Decides the decoration-time and rejection structure C12.R1-R3 (tables B13/B14, position record is the index in the '
+        text='Decides the decoration-time and rejection structure C12.R1-R4 (tables B13/B14, position record is the index in the '
              'original parameter list, re-preparation idempotent, forms select among positional-or-keyword parameters and apply '
-             'kwoargs to every selected name).',
+             'kwoargs to every selected name; bound access returns the translator bound to this instance from a per-descriptor cache).',
         note='delivery of argument values to the right parameter (index arithmetic on runtime lists), the iff over calls, bound-method behaviour.',
         design='DESIGN.md section 3 (C12), appendix B13/B14'),
     'C13': dict(
@@ -103,15 +115,18 @@ CHECKS = {
         design='DESIGN.md section 3 (C13)'),
     'C14': dict(
         technique=TECH + 'class-protocol rules: guard dominance in __eq__, __hash__ presence, slot completeness and selection coherence of replace(), inherited-method inventory',
-        text='Decides the structural clauses C14.R1-R4 (__eq__ totality and symmetric slot comparison, hashability, replace '
-             'returns the upgraded type and keeps the extras, nothing else overridden).',
+        text='Decides the structural clauses C14.R1-R4 (__eq__ totality, NotImplemented handed on, symmetric slot comparison; '
+             'hashability with a hash that delegates to the base; replace '
+             'returns the upgraded type and keeps the extras, explicit empty overrides win, nothing else overridden).',
         note='reflexivity/symmetry/hash-consistency as value laws beyond the guards.',
         design='DESIGN.md section 3 (C14)'),
     'C15': dict(
         technique=TECH + 'interprocedural exception-escape analysis (explicit raises/asserts, vetted external raisers), handler-wrapping and validating-construction rules',
-        text='Decides the structural clauses C15.R1-R5 (fold steps wrapped by ValueError -> IncompatibleSignatures, explicit raises '
+        text='Decides the structural clauses C15.R1-R8 (fold steps wrapped by ValueError -> IncompatibleSignatures, explicit raises '
              'escaping the public algebra are ValueErrors or reviewed, results built through the validating constructor, upgrade '
-             'with DeprecationWarning on entry, discovery converts algebra failures into its fallback).',
+             'with DeprecationWarning on entry, discovery converts algebra failures into its fallback; R6/R7: the two implicit '
+             'exception sources visible in the code -- nullable star slots and partial provenance maps; R8: output buckets hold '
+             'their kinds and defaults are cleared when a required positional follows).',
         note='absence of implicit exception types (KeyError, TypeError, RecursionError) from dynamically typed expressions; '
              'well-formedness of values beyond "built by the validating constructor".',
         design='DESIGN.md section 3 (C15)'),
@@ -119,31 +134,36 @@ CHECKS = {
         technique=TECH + 'provenance/alias domain with interprocedural mutates-parameter and returns-alias summaries; typestate and exception-edge analysis of the delete/restore window',
         text='Decides the structural clauses C16.R1-R4 (inputs not mutated, results do not share provenance maps, foreign '
              'attribute writes only inside the verified window with per-key typestate and restoration on every exit, recursion '
-             'guard emptied in a finally with the same key).',
+             'guard emptied in a finally with the same key; every result of the public operations is built by apply_params; the '
+             'restoring call on the exception edge binds to __exit__).',
         note='what outside code called during retrieval does; deep-snapshot equality.',
         design='DESIGN.md section 3 (C16)'),
     'C17': dict(
         technique=TECH + 'static race argument: temporary-mutation windows x receiver provenance (created-here / thread-local / caller-owned / shared), fail-closed inventory of shared mutable state',
-        text='Decides the structural clauses C17.R1-R2 (no mutate/restore window on an object other threads can reach; inventory '
-             'of shared mutable state equals the reviewed list). The window on the inspected function is a recorded known finding (D6).',
+        text='Decides the structural clauses C17.R1-R4 (no mutate/restore window on an object other threads can reach; inventory '
+             'of shared mutable state equals the reviewed list; no placeholder is published in the shared binding cache; attribute '
+             'probes inside the window are EAFP). The window on the inspected function is a recorded known finding (D6).',
         note='everything about actual schedules; benign races on caches.',
         design='DESIGN.md section 3 (C17)'),
     'C18': dict(
         technique=TECH + 'alias rule for weak caches (value must not be derived from its key), argument-flow and effect-ordering rules for stacking and annotate, idempotence of _prepare',
         text='Decides the structural clauses C18.R1-R4 (weak cache must not retain its key -- recorded known finding D7; stacking '
-             'merges both selections; annotate after a modifier re-prepares; descriptor cache keyed by the bound function).',
+             'merges both selections -- the composition with anchor-based (start=/end=) getters is recorded known finding D24; '
+             'annotate after a modifier re-prepares; descriptor cache keyed by the bound function and created per descriptor).',
         note='permutation equality of signatures and call behaviour; sequence histories.',
         design='DESIGN.md section 3 (C18)'),
     'C19': dict(
         technique=TECH + 'sibling cross-check of the two partial branches (argument flow into _mask), partial column of the mask table, effect ordering',
         text='Decides the structural clauses C19.R1-R4 (both partial branches call _mask with the same shape, partial rows of the '
-             'mask table, depth copy before depth-0 placement, discovery passes bound positionals and no keywords).',
+             'mask table incl. name-index coherence, depth copy before depth-0 placement, discovery passes bound positionals and no '
+             'keywords, runs for every partial object and resolves names in the caller-bound arguments only).',
         note='agreement with really calling the partial object.',
         design='DESIGN.md section 3 (C19)'),
     'C20': dict(
         technique=TECH + 'decision-table conformance of the independent binder, partition rule, enumeration bounds with effect ordering',
-        text='Decides only the structural clauses C20.R1-R3 (bind_callsig table B15, sort_callsigs partition, make_up_callsigs '
-             'bounds). The string/code round trip is stated not applicable (value-level).',
+        text='Decides only the structural clauses C20.R1-R5 (bind_callsig table B15 incl. *args bound as a tuple, sort_callsigs '
+             'partition, make_up_callsigs bounds, idempotent combination of __future__ flags, partition protocol of '
+             'func_from_sig). The string/code round trip of read_sig/func_code is stated not applicable (value-level).',
         note='the string <-> code <-> signature round trip of read_sig/func_code/f/s/func_from_sig; equality of bind_callsig\'s mapping with CPython\'s.',
         design='DESIGN.md section 3 (C20)'),
 }
